@@ -18,10 +18,18 @@ theorem body_mkPacket (pt ts ssrc mark seq : Nat) (payload : Bytes) :
     (mkPacket pt ts ssrc mark seq payload).body = .ok payload := by
   simp [RtpPacket.body, mkPacket, makeRtpPacket, defaultHeader, from?, packTo_length]
 
+theorem toU32_tdiv_nat (rate : Nat) (hr : rate < 4294967296000) : toU32 ((rate : Int).tdiv 1000) = rate / 1000 := by
+  unfold toU32
+  have h0 : (rate : Int).tdiv 1000 = ((rate / 1000 : Nat) : Int) := by
+    rw [Int.tdiv_eq_ediv_of_nonneg (by omega)]; rfl
+  rw [h0]
+  have h1 : ((rate / 1000 : Nat) : Int) % 4294967296 = ((rate / 1000 : Nat) : Int) := by omega
+  rw [h1]; rfl
+
 theorem tsMs_ok (rate ts : Nat) (hr : 1000 ≤ rate ∧ rate < 4294967296000) : tsMs rate ts = .ok (ts / (rate / 1000)) := by
-  unfold tsMs div?
-  have h1 : rate / 1000 % 4294967296 = rate / 1000 := by omega
-  rw [h1, if_neg (by omega)]
+  unfold tsMs
+  simp only [toU32_tdiv_nat rate hr.2]
+  rw [if_neg (by omega)]
 
 theorem calcAvc_single (p : RtpPacket) (b0 : UInt8) (r : Bytes) (hb : p.body = .ok (b0 :: r)) (ht : b0.toNat % 32 ≤ 23) :
     calcPositionAvc p = .ok { p with pos := 1 } := by
@@ -30,6 +38,7 @@ theorem calcAvc_single (p : RtpPacket) (b0 : UInt8) (r : Bytes) (hb : p.body = .
 theorem calcAvc_fu (p : RtpPacket) (b0 b1 : UInt8) (r : Bytes) (hb : p.body = .ok (b0 :: b1 :: r)) (ht : b0.toNat % 32 = 28) :
     calcPositionAvc p = .ok { p with pos := fuPos b1 } := by
   simp [calcPositionAvc, hb, idx?, bind, Except.bind, ht, pure, Except.pure]
+  omega
 
 theorem calcHevc_single (p : RtpPacket) (b0 : UInt8) (r : Bytes) (hb : p.body = .ok (b0 :: r)) (ht : b0.toNat / 2 % 64 < 48) :
     calcPositionHevc p = .ok { p with pos := 1 } := by
@@ -38,6 +47,7 @@ theorem calcHevc_single (p : RtpPacket) (b0 : UInt8) (r : Bytes) (hb : p.body = 
 theorem calcHevc_fu (p : RtpPacket) (b0 b1 b2 : UInt8) (r : Bytes) (hb : p.body = .ok (b0 :: b1 :: b2 :: r)) (ht : b0.toNat / 2 % 64 = 49) :
     calcPositionHevc p = .ok { p with pos := fuPos b2 } := by
   simp [calcPositionHevc, hb, idx?, bind, Except.bind, ht, pure, Except.pure]
+  omega
 
 
 /-! ### FU packets as stored in the list -/
@@ -585,6 +595,7 @@ theorem parseAu_single (a b : UInt8) (frame : Bytes) :
     parseAu (0 :: 16 :: a :: b :: frame) = .ok [⟨(a.toNat * 256 + b.toNat / 8 * 8) / 8, 4⟩] := by
   have hb : rd16 (0 : UInt8) 16 = 16 := by decide
   simp [parseAu, parseAuLoop, idx?, bind, Except.bind, pure, Except.pure, hb]
+  rw [if_neg (by omega), if_neg (by omega)]
 
 theorem try_aac_single (rate : Nat) (p : RtpPacket) (T : List RtpPacket) (a b : UInt8) (frame : Bytes)
     (hr : 1000 ≤ rate ∧ rate < 4294967296000) (hb : p.body = .ok (0 :: 16 :: a :: b :: frame))
